@@ -36,25 +36,57 @@ fn hash_xpm1_contract() {
 //   lat >  TRANSITION_LATITUDE => 0 <= sqrt6*cos(lat/2 + pi/4) <= 1
 //   lat < -TRANSITION_LATITUDE => 0 <= sqrt6*cos(lat/2 - pi/4) <= 1
 static mut TRIG_ARG: f64 = 0.0;
+static mut TRIG_RET: f64 = 0.0;   // value returned by the last libm stub call (the harness needs it to state the oracle)
 fn ax_cos(x: f64) -> f64 {
   let r: f64 = kani::any();
   // only called with lat/2 +- pi/4 where |lat| > transition latitude: result in [0, 1/sqrt6]
   kani::assume(r >= 0.0 && r * SQRT6 <= 1.0);
-  unsafe { TRIG_ARG = x; }
+  unsafe { TRIG_ARG = x; TRIG_RET = r; }
   r
 }
 fn ax_sin(x: f64) -> f64 {
   let r: f64 = kani::any();
   kani::assume(r >= -1.0 && r <= 1.0);
+  unsafe { TRIG_RET = r; }
   if x >= -TRANSITION_LATITUDE && x <= TRANSITION_LATITUDE { kani::assume(r * ONE_OVER_TRANSITION_Z >= -1.0 && r * ONE_OVER_TRANSITION_Z <= 1.0); }
   r
 }
 /// d0h_lh_in_d0c: base cell < 12, (l, h) inside the base-cell diamond |l| <= min(h, 2-h), h in [0,2],
 /// base-cell row consistent with the latitude region, for all lon in [-200,200], lat in [-pi/2,pi/2].
-#[kani::proof] #[kani::stub(f64::cos, ax_cos)] #[kani::stub(f64::sin, ax_sin)] fn hash_trig_contract_eqr() { trig_contract(0) }
-#[kani::proof] #[kani::stub(f64::cos, ax_cos)] #[kani::stub(f64::sin, ax_sin)] fn hash_trig_contract_npc() { trig_contract(1) }
-#[kani::proof] #[kani::stub(f64::cos, ax_cos)] #[kani::stub(f64::sin, ax_sin)] fn hash_trig_contract_spc() { trig_contract(2) }
-fn trig_contract(region: u8) {
+#[kani::proof] #[kani::stub(f64::cos, ax_cos)] #[kani::stub(f64::sin, ax_sin)] fn hash_trig_contract_eqr() { trig_contract(0, false) }
+#[kani::proof] #[kani::stub(f64::cos, ax_cos)] #[kani::stub(f64::sin, ax_sin)] fn hash_trig_contract_npc() { trig_contract(1, false) }
+#[kani::proof] #[kani::stub(f64::cos, ax_cos)] #[kani::stub(f64::sin, ax_sin)] fn hash_trig_contract_spc() { trig_contract(2, false) }
+#[kani::proof] #[kani::stub(f64::cos, ax_cos)] #[kani::stub(f64::sin, ax_sin)] fn hash_trig_oracle_eqr() { trig_contract(0, true) }
+#[kani::proof] #[kani::stub(f64::cos, ax_cos)] #[kani::stub(f64::sin, ax_sin)] fn hash_trig_oracle_npc() { trig_contract(1, true) }
+#[kani::proof] #[kani::stub(f64::cos, ax_cos)] #[kani::stub(f64::sin, ax_sin)] fn hash_trig_oracle_spc() { trig_contract(2, true) }
+/// base-cell identity alone (integers only): in the equatorial region the returned base cell is one
+/// of the four cells meeting the longitude quarter of the point: NPC q, SPC q+8, EQR 4+q, EQR 4+((q+1)&3)
+#[kani::proof] #[kani::stub(f64::cos, ax_cos)] #[kani::stub(f64::sin, ax_sin)]
+fn hash_trig_basecell_eqr() {
+  let lon: f64 = kani::any(); let lat: f64 = kani::any();
+  kani::assume(lon >= -200.0 && lon <= 200.0 && lat >= -TRANSITION_LATITUDE && lat <= TRANSITION_LATITUDE);
+  let (d0h, _l, _h) = Layer::d0h_lh_in_d0c(lon, lat);
+  let (_x_pm1, q) = Layer::xpm1_and_q(lon);
+  assert!(d0h == q || d0h == q + 8 || d0h == 4 + q || d0h == 4 + ((q + 1) & 3), "C01 the base cell is one of the four cells meeting the longitude quarter of the point");
+  kani::cover!(d0h == 4 && q == 3, "base cell 4 reached from the last longitude quarter (wrap)");
+}
+/// which of the four base cells: by the position of (x_pm1, y_pm1) w.r.t. the two diagonals of the quarter
+#[kani::proof] #[kani::stub(f64::cos, ax_cos)] #[kani::stub(f64::sin, ax_sin)]
+fn hash_trig_quadrant_eqr() {
+  let lon: f64 = kani::any(); let lat: f64 = kani::any();
+  kani::assume(lon >= -200.0 && lon <= 200.0 && lat >= -TRANSITION_LATITUDE && lat <= TRANSITION_LATITUDE);
+  let (d0h, _l, _h) = Layer::d0h_lh_in_d0c(lon, lat);
+  let (_x_pm1, q) = Layer::xpm1_and_q(lon);
+  // which of the four: by the position of (x_pm1, y_pm1) with respect to the two diagonals of the quarter
+  // (S->E and S->W edges belong to a cell, as documented)
+  let y = unsafe { TRIG_RET } * ONE_OVER_TRANSITION_Z;
+  let x = _x_pm1;
+  if y >= x && y >= -x { assert!(d0h == q, "C01 north quadrant of the quarter -> north polar base cell q"); }
+  else if x > y && x >= -y { assert!(d0h == 4 + ((q + 1) & 3), "C01 east quadrant -> the equatorial base cell east of the quarter"); }
+  else if x <= y && x < -y { assert!(d0h == 4 + q, "C01 west quadrant -> the equatorial base cell west of the quarter"); }
+  else { assert!(d0h == q + 8, "C01 south quadrant -> south polar base cell q + 8"); }
+}
+fn trig_contract(region: u8, oracle: bool) {
   let lon: f64 = kani::any(); let lat: f64 = kani::any();
   kani::assume(lon >= -200.0 && lon <= 200.0 && lat >= -HALF_PI && lat <= HALF_PI);
   match region { 0 => kani::assume(lat >= -TRANSITION_LATITUDE && lat <= TRANSITION_LATITUDE), 1 => kani::assume(lat > TRANSITION_LATITUDE), _ => kani::assume(lat < -TRANSITION_LATITUDE) }
@@ -69,7 +101,32 @@ fn trig_contract(region: u8) {
   assert!(u <= 2.0 && v <= 2.0, "C01 rotated coordinates do not exceed the base-cell size");
   if lat > TRANSITION_LATITUDE { assert!(d0h < 4 && h >= 1.0, "C01 north cap -> north polar base cell, upper half"); }
   if lat < -TRANSITION_LATITUDE { assert!(d0h >= 8 && h <= 1.0, "C01 south cap -> south polar base cell, lower half"); }
+  if !oracle {
+    kani::cover!(region != 0 || (d0h >= 4 && d0h < 8), "equatorial base cell");
+    kani::cover!(lon < 0.0, "negative longitude");
+    return;
+  }
+  // ORACLE (integer geometry of the projection plane, independent of the quadrant logic): in the
+  // frame of the longitude quarter q the point is at X = 2q + 1 + x_pm1 (mod 8), Y = y_pm1 (resp. the
+  // Collignon ordinate); (l, h - 1) must be exactly that position relative to the centre of base cell d0h.
+  let (x_pm1, q) = Layer::xpm1_and_q(lon);
+  let (cx, cy) = sp::base_cell_center(d0h);
+  let mut dq = cx - (2 * q as i64 + 1);         // -1, 0 or +1 (modulo 8)
+  if dq < -4 { dq += 8; }
+  if dq > 4 { dq -= 8; }
+  assert!(dq >= -1 && dq <= 1, "C01 the base cell is one of the four cells meeting the longitude quarter");
+  let t = unsafe { TRIG_RET };
+  if region == 0 {
+    let y_pm1 = t * ONE_OVER_TRANSITION_Z;
+    assert!(h == y_pm1 + (1 - cy) as f64, "C01 h is the ordinate of the point relative to the south corner of the chosen base cell");
+    assert!(l == x_pm1 - dq as f64, "C01 l is the abscissa of the point relative to the centre of the chosen base cell");
+  } else {
+    let s = SQRT6 * t;
+    assert!(d0h == if region == 1 { q } else { q + 8 }, "C01 polar cap: base cell of the longitude quarter");
+    assert!(l == x_pm1 * s && h == if region == 1 { 2.0 - s } else { s }, "C01 polar cap: Collignon coordinates relative to the base cell");
+  }
   kani::cover!(region != 0 || (d0h >= 4 && d0h < 8), "equatorial base cell");
+  kani::cover!(region != 0 || (d0h == 4 && q == 3), "base cell 4 reached from the last longitude quarter (wrap)");
   kani::cover!(region != 0 || d0h < 4, "equatorial latitude in a north polar base cell");
   kani::cover!(lon < 0.0, "negative longitude");
 }
